@@ -267,6 +267,8 @@ def main(ck):
                      {"op": rng.choice(["goc", "pkg"]), "name": rng.choice(["App\\P", "App\\S"])}]
                 rng.shuffle(t)
                 ths.append(t)
+            # one more goroutine keeps registering namespaces on the shared class-path manager (AddNamespace vs FindClassFile)
+            ths.append([{"op": "addns", "name": "Extra%d" % k} for k in range(4)])
             auto_cfgs.append({"autoload": AUTO, "threads": ths, "gomaxprocs": g, "repeat": 25, "keepall": True})
     nauto, nauto_bad = 0, 0
     for binx, what in ((binary, "results"), (racebin, "race")):
@@ -294,6 +296,8 @@ def main(ck):
             for run in (o.get("alls") or [[]])[0] or []:
                 for ops, rs in zip(c["threads"], run):
                     for op, r in zip(ops, rs):
+                        if op["op"] == "addns":
+                            continue
                         nauto += 1
                         if r["r"] != 0 or r["d"] != want[op["name"]]:
                             nauto_bad += 1
@@ -361,6 +365,74 @@ def main(ck):
             ck.violation("temps:request-differs-from-solo-run", {"mode": "temps", "case": c, "impl_out": {"thread": ti, "results": rs},
                                                                 "clause": "a request on its own TempVM got results that differ from the same request run alone (C12 isolation, under concurrency)"})
     ck.cov["tempvm_requests_checked"] = len(sterms)
+
+    # ---------------------------------------------------------------- (vi) real scripts: spawn (std/spawn.go) + registry
+    # 6 spawned coroutines each: class_exists / interface_exists / new on autoloadable names (concurrent autoload through
+    # the script-level builtins), a dynamic class definition (eval), and define() of ONE shared constant; the main
+    # coroutine joins over Channels and counts.  Expected "18|1|6|k": every resolution succeeded, exactly one define()
+    # won, all 6 dynamic classes are visible afterwards.  Repeated under the race detector.
+    SCRIPT = r"""$n = 6;
+$ids = new Channel(6);
+$done = new Channel(0);
+$winc = new Channel(6);
+$i = 0;
+while ($i < $n) { $ids->send($i); $i = $i + 1; }
+$i = 0;
+while ($i < $n) {
+    spawn(function() use ($ids, $done, $winc) {
+        $id = $ids->receive();
+        $ok = 0;
+        if (class_exists("App\P")) { $ok = $ok + 1; }
+        if (interface_exists("App\Q")) { $ok = $ok + 1; }
+        $o = new App\S();
+        $ok = $ok + 1;
+        eval("class Dyn" . $id . " {}");
+        $w = 0;
+        try { define("SAME_K", $id); $w = 1; } catch (\Throwable $e) { $w = 0; }
+        $winc->send($w);
+        $done->send($ok);
+    });
+    $i = $i + 1;
+}
+$sum = 0; $wins = 0; $i = 0;
+while ($i < $n) { $sum = $sum + $done->receive(); $wins = $wins + $winc->receive(); $i = $i + 1; }
+$dyn = 0; $i = 0;
+while ($i < $n) { if (class_exists("Dyn" . $i, false)) { $dyn = $dyn + 1; } $i = $i + 1; }
+echo $sum, "|", $wins, "|", $dyn, "|", defined("SAME_K") ? "k" : "-";
+"""
+    # second script: 6 coroutines look up a class that does not exist anywhere (the failing path of LoadClass)
+    SCRIPT2 = r"""$n = 6;
+$done = new Channel(0);
+$i = 0;
+while ($i < $n) {
+    spawn(function() use ($done) {
+        $x = class_exists("Nope\\Missing") ? 1 : 0;
+        $y = interface_exists("Nope\\MissingI") ? 1 : 0;
+        $done->send($x + $y);
+    });
+    $i = $i + 1;
+}
+$sum = 0; $i = 0;
+while ($i < $n) { $sum = $sum + $done->receive(); $i = $i + 1; }
+echo $sum;
+"""
+    nscripts = 0
+    if not ck.replay:
+        rep_n = 100 if ck.tier == "quick" else 1000
+        scfgs = [{"src": SCRIPT, "repeat": rep_n, "autoload": AUTO, "gomaxprocs": g, "expect": "18|1|6|k"} for g in (2, 16)] + \
+                [{"src": SCRIPT2, "repeat": rep_n, "autoload": AUTO, "gomaxprocs": 4, "expect": "0"}]
+        sres, _, _ = run_lines([racebin, "script"], [json.dumps(c) for c in scfgs])
+        for c, o in zip(scfgs, sres):
+            if "worker_death" in o:
+                death_violation(ck, "script", dict(c, repeat=200), o["worker_death"])
+                continue
+            for r in o.get("runs") or []:
+                nscripts += 1
+                if r["outcome"] != "ok" or r["out"].strip() != c["expect"]:
+                    ck.violation("script:spawn-registry", {"mode": "script", "case": dict(c, repeat=200), "impl_out": r,
+                                                           "clause": "spawned coroutines resolving/defining concurrently: expected output " + c["expect"] + " (all resolutions succeed, one define() winner, 6 dynamic classes visible / missing classes stay missing)"})
+                    break
+    ck.cov["script_level_spawn_runs"] = nscripts
 
     # recorded histories (stamps): small ones searched for a linearization, big ones checked for the consequences
     hist_small, hist_big = [], []
